@@ -730,7 +730,9 @@ def f_hist():
     top = cmd("prog", [arg("g", "g", "gg", glob=True, action="SetTrue"), arg("t", "t", "tt", action="SetTrue"), arg("v", "v", "val", defaults=["d"])],
               subs=[mid, other], version=True)
     add("tree", top, [["-t"], ["--zzzzzz"], ["mid", "-r", "1", "leaf", "-l"], ["mid"], ["mid", "--zz"], ["other", "--xra"], ["--help"],
-                      ["mid", "--help"], ["mid", "--version"], ["help", "mid"], ["other", "-o"], ["--tt", "--tt"], ["mid", "-r", "1", "leaf", "--bogus"]])
+                      ["mid", "--help"], ["mid", "--version"], ["help", "mid"], ["other", "-o"], ["--tt", "--tt"], ["mid", "-r", "1", "leaf", "--bogus"],
+                      # the generated help subcommand walked twice: its shape (a positional, or a tree once expanded) must not depend on history
+                      ["help", "help"], ["help", "help", "mid"], ["help", "mid", "leaf"], ["help", "nope"]])
     add("flat", cmd("prog", [arg("a", "a", "aa", action="SetTrue"), arg("o", "o", "opt"), arg("p1", required=True)]),
         [["x"], [], ["-a", "x"], ["--opt"], ["--op", "v", "x"], ["-h"], ["--aa", "--aa", "x"], ["x", "y"]])
     add("infer", cmd("prog", [arg("v1", long="verbose", action="SetTrue"), arg("o", "o", "output")],
